@@ -383,6 +383,59 @@ def run_shared_shape(ctx, i, rng):
         ctx.check(y0 is None or bool(jnp.allclose(y, y0)), 'init_apply_agree:output:shared_instance', lambda: dict(case=desc))
 
 
+def run_shared_unbind(ctx, i, rng):
+  """One module instance shared between several outside-built parents (tied weights), pushed through bind / unbind / clone / copy:
+  the object that comes back still ties the same sub-modules - init creates the same tree (no variable created, dropped or renamed)
+  and apply consumes the original variables."""
+  import jax
+  import jax.numpy as jnp
+  from flax.core import unfreeze
+  from vf.props import c01
+  C = c01.bound_classes()
+  layout = ['two_parents', 'three_parents', 'parent_and_direct', 'nested_parents'][i % 4]
+  via = ['unbind', 'clone', 'bind_unbind_twice', 'copy'][(i // 4) % 4]
+  desc = dict(layout=layout, via=via)
+  with ctx.case('shared_unbind', i, desc, nontrivial=True):
+    tied = C['Leaf']()
+    if layout == 'two_parents':
+      model = C['Node2'](C['Node1'](tied), C['Node1'](tied))
+    elif layout == 'three_parents':
+      model = C['Node3'](C['Node1'](tied), C['Node1'](tied), C['Node1'](tied))
+    elif layout == 'parent_and_direct':
+      model = C['Node2'](C['Node1'](tied), tied)
+    else:
+      model = C['Node2'](C['Node1'](C['Node1'](tied)), C['Node1'](tied))
+    x = jnp.asarray(np.random.default_rng(i).uniform(-1, 1, (2, 3)).astype(np.float32))
+    key = jax.random.key(i)
+    v = unfreeze(model.init(key, x))
+    v2 = unfreeze(model.init(jax.random.key(i + 100), x))
+    want = model.apply(v2, x, mutable=['counter'])
+    if via == 'unbind':
+      obj = model.bind(v).unbind()[0]
+    elif via == 'clone':
+      obj = model.clone()
+    elif via == 'copy':
+      obj = model.copy()
+    else:
+      obj = model.bind(v).unbind()[0].bind(v2).unbind()[0]
+    ctx.op('shared instance through %s' % via)
+    shp = lambda t: jax.tree_util.tree_map(lambda a: tuple(np.shape(a)), t)  # noqa: E731
+    try:
+      v_obj = unfreeze(obj.init(key, x))
+    except Exception as e:  # noqa: BLE001
+      ctx.check(False, 'tree:shared_instance_lost:init_raises', dict(case=desc, error=repr(e)[:300]))
+      return
+    ctx.check(shp(v_obj) == shp(v), 'tree:shared_instance_lost:init_tree', lambda: dict(case=desc, got=shp(v_obj), want=shp(v)))
+    try:
+      got = obj.apply(v2, x, mutable=['counter'])
+    except Exception as e:  # noqa: BLE001
+      ctx.check(False, 'init_apply_agree:shared_instance_lost:apply_raises', dict(case=desc, error=repr(e)[:300]))
+      return
+    ok = jax.tree_util.tree_structure(got) == jax.tree_util.tree_structure(want) and all(
+        np.allclose(a, b) for a, b in zip(jax.tree_util.tree_leaves(got), jax.tree_util.tree_leaves(want)))
+    ctx.check(ok, 'init_apply_agree:shared_instance_lost:output', lambda: dict(case=desc))
+
+
 def run_reentrant(ctx, i, rng):
   """Re-entrant compact methods (a subclass calling super().__call__, a method calling self recursively): auto-names keep
   counting in creation order across the re-entrant calls, so every layer gets its own subtree."""
@@ -534,6 +587,8 @@ def run(ctx):
     run_reentrant(ctx, i, ctx.rng('reentrant', i))
   for i in ctx.indices(144 if ctx.tier == 'quick' else 288, 'shared_shape'):
     run_shared_shape(ctx, i, ctx.rng('shared_shape', i))
+  for i in ctx.indices(32, 'shared_unbind'):
+    run_shared_unbind(ctx, i, ctx.rng('shared_unbind', i))
   for i in ctx.indices(54, 'mixed_clash'):
     run_mixed_style_clash(ctx, i, ctx.rng('mixed_clash', i))
   rlog = RngLog(ctx)
